@@ -195,6 +195,10 @@ def run_single(case: dict[str, Any], stats: Stats) -> list[Violation]:
         return out
     timg = ipsref.image_of_blocks(twin["blocks"])
     data = entries.get_out(o, spec["out"])
+    if data is None and spec.get("no_output_opt"):
+        # the default output *name* is not part of the statement: no verdict if it is not "a.out"
+        stats.bump("no_verdict(default output file name is not a.out)")
+        return out
     if data is None:
         out.append(Violation("output_missing", base_sig, f"{entry}: success but {spec['out']} does not exist", case, detail))
         return out
